@@ -9,7 +9,7 @@ use crate::verif::gen::{self, Graph};
 use crate::verif::model::{GRule, RuleStatus};
 use crate::verif::shim::Policy;
 use crate::verif::util::{fnv64, fnv_str, mix, Rng, J};
-use crate::verif::vsys::{Clock, Op, Who, RULER_DIR};
+use crate::verif::vsys::{Clock, Op, Who, ruler_dir};
 use crate::verif::world::{self, Obs, SchedChoice, Verdict, Violation, World};
 
 #[derive(Clone, Debug)]
@@ -95,6 +95,8 @@ impl HistCfg
         w[W_TAMPER] = 4; w[W_DELETE_TARGET] = 3; w[W_DELETE_CACHE_ENTRY] = 2; w[W_DELETE_RULER] = 1;
         w[W_DELETE_CACHE] = 1; w[W_DELETE_HISTORY] = 1; w[W_DELETE_HISTORY_FILE] = 1; w[W_DELETE_TABLE] = 1;
         w[W_BUILD_AGAIN] = 4; w[W_SWAP_LEAVES] = 2; w[W_RERENDER] = 1; w[W_STASH] = 2; w[W_UNSTASH] = 3;
+        // every property quantifies over histories in which commands may fail: a little of it everywhere
+        w[W_POISON_FAIL] = 2; w[W_POISON_SKIP] = 1; w[W_POISON_STEP] = 2; w[W_DELETE_LEAF] = 1;
         HistCfg
         {
             max_ops : if thorough { 40 } else { 14 },
@@ -103,7 +105,7 @@ impl HistCfg
             motif_pct : 25,
             random_sched_pct : 10,
             decoys : false,
-            failures : false,
+            failures : true,
             clock : Clock::Distinct,
         }
     }
@@ -420,7 +422,7 @@ impl HistRun
             HOp::PoisonFail(l) =>
             {
                 w.counter += 1;
-                let c = format!("!FAIL v{}", w.counter).into_bytes();
+                let c = if w.counter % 4 == 0 { format!("!FAILSIG v{}", w.counter) } else { format!("!FAIL v{}", w.counter) }.into_bytes();
                 w.write_leaf(l, c);
                 // a poison version is not something to revert to
                 if let Some(v) = w.leaf_versions.get_mut(l) { v.pop(); }
@@ -528,33 +530,33 @@ impl HistRun
                 {
                     let name = entries[rng.below(entries.len())].0.clone();
                     w.sys.tick();
-                    w.sys.user_remove(&format!("{}/cache/{}", RULER_DIR, name));
+                    w.sys.user_remove(&format!("{}/cache/{}", ruler_dir(), name));
                 }
                 w.fresh_build = None;
             },
             HOp::DeleteRulerDir =>
             {
                 w.sys.tick();
-                w.sys.user_remove(RULER_DIR);
+                w.sys.user_remove(ruler_dir());
                 w.forget_everything();
                 w.fresh_build = None;
             },
             HOp::DeleteCacheDir =>
             {
                 w.sys.tick();
-                w.sys.user_remove(&format!("{}/cache", RULER_DIR));
+                w.sys.user_remove(&format!("{}/cache", ruler_dir()));
                 w.fresh_build = None;
             },
             HOp::DeleteHistoryDir =>
             {
                 w.sys.tick();
-                w.sys.user_remove(&format!("{}/history", RULER_DIR));
+                w.sys.user_remove(&format!("{}/history", ruler_dir()));
                 w.forget_everything();
                 w.fresh_build = None;
             },
             HOp::DeleteHistoryFile =>
             {
-                let files = w.sys.disk().files_under(&format!("{}/history", RULER_DIR));
+                let files = w.sys.disk().files_under(&format!("{}/history", ruler_dir()));
                 if files.len() > 0
                 {
                     let f = files[rng.below(files.len())].clone();
@@ -572,7 +574,7 @@ impl HistRun
             HOp::DeleteTable =>
             {
                 w.sys.tick();
-                w.sys.user_remove(&format!("{}/current_file_states", RULER_DIR));
+                w.sys.user_remove(&format!("{}/current_file_states", ruler_dir()));
                 // the table is only an optimisation: freshness of the last build is unaffected
             },
             HOp::Build(_) | HOp::BuildAgain | HOp::Clean(_) | HOp::BuildCleanBuild(_) => return false,
@@ -596,14 +598,14 @@ pub struct Judge<'a>
 
 fn displaced_by_ruler(obs : &Obs) -> usize
 {
-    let prefix = format!("{}/cache/", RULER_DIR);
+    let prefix = format!("{}/cache/", ruler_dir());
     obs.log.iter().filter(|e| e.op == Op::Rename && e.ok && e.who == Who::Ruler && e.p2.starts_with(&prefix)).count()
 }
 
 fn restored_by_ruler(obs : &Obs) -> usize
 {
-    let prefix = format!("{}/cache/", RULER_DIR);
-    obs.log.iter().filter(|e| e.op == Op::Rename && e.ok && e.who == Who::Ruler && e.p1.starts_with(&prefix) && !e.p2.starts_with(RULER_DIR)).count()
+    let prefix = format!("{}/cache/", ruler_dir());
+    obs.log.iter().filter(|e| e.op == Op::Rename && e.ok && e.who == Who::Ruler && e.p1.starts_with(&prefix) && !e.p2.starts_with(ruler_dir())).count()
 }
 
 /*  Run every monitor on one observation.  Returns all violations found (tagged with their property); the caller
